@@ -29,6 +29,10 @@ FIXED=[
  ("C06","Elide() of an unknown token type","parser.go Build / getElidedTypes","Build accepted Elide(\"Nope\") and every Parse*/ParseString call on the built parser then panicked in getElidedTypes"),
  ("C06","slice of encoding.TextUnmarshaler structs","nodes.go setField","`A []T \"@Ident*\"` with T a struct implementing encoding.TextUnmarshaler builds, then every parse that captures panics in reflect.Append (value of type string is not assignable to type T); `[]*T` silently dropped every element (found through an independent reviewer's side remark, reproduced by the capture-target cases added to C06)"),
  ("C06","slice and pointer field types the parser cannot fill","nodes.go setField / conform","captures into `[][]string`, `[]complex64`, `[]uintptr`, `[][]int` panicked in reflect.Append and `@@` into `**T` / `[]**T` panicked in reflect.Value.Convert, where the same capture into a scalar of an unsupported type is reported as an error"),
+ ("C06","Unquote panics on a token shorter","map.go unquote","a parser built with Unquote(...) panicked (slice bounds out of range [1:0]) in every Parse*/Lex call on an input with a one-byte token of a selected type, e.g. Unquote(\"Ident\") on \"a\" (found by the option cases of C06)"),
+ ("C19","slice or pointer type that is its own element type","grammar.go indirectType","Build died with a fatal stack overflow for a field of type `type L []L` or `type P *P` (with @@ or a plain capture): indirectType recursed through Elem() without end (an independent reviewer's remark, reproduced by the static-type cases of C19)"),
+ ("C19","Union() with a nil member","options.go Union","Build panicked (nil pointer dereference in parseType) for Union[I](A{}, nil)"),
+ ("C08","productions the root does not reach","parser.go Build / validate.go","Build[Root](Union[U](A{})) accepted a left-recursive A when Root never uses U, and ParserForProduction[A] then handed out a parser that recurses without consuming input (an independent reviewer's remark; reproduced by the unused-union templates and by random C08 grammars that declare a union they do not use)"),
  ("C19","Parseable with a value receiver","grammar.go parseType","Build panicked (reflect: Elem of invalid type) for a field or root type that implements Parseable with a value receiver (found by the static-type cases added to C19 after an independent reviewer's remark)"),
  ("C19","modifier, capture or negation with no operand","grammar.go parseModifier/parseCapture/parseNegation","Build panicked (value \"<nil>\") on tags `@`, `?`, `!`, `~`, `\"a\" @`, `! !`, parser:\"@\""),
  ("C06","capturing an empty match into a lexer.Token","nodes.go setField","`Tok lexer.Token \"@(\\\"a\\\"?)\"` on input without the optional token: index out of range [0] in setField (witness grammar W4)"),
